@@ -353,6 +353,23 @@ def _label(E, spec):
     return lab + ("|small-n" if spec["regime"] == "small" else "|density" if spec["regime"] == "density" else "")
 
 
+def _union_of_estimates(I):
+    """a union one of whose operands is a cut / intersection / union: that operand's volume() is the
+    documented estimate (a.volume for a cut or intersection, the sum for a union), and the union mixes its
+    operands in proportion to these estimates (known finding D40)."""
+    def strip(n):
+        while n["t"] in ("translate", "rotate"):
+            n = n["a"]
+        return n
+    for n in rg.walk(I):
+        if n["t"] == "union":
+            for c in (strip(n["a"]), strip(n["b"])):
+                if c["t"] in ("isect",) or (c["t"] == "cut" and not c.get("contained")) or \
+                        (c["t"] == "union" and not c.get("disjoint")):
+                    return True
+    return False
+
+
 def _overlap_union(E, penv, gen):
     """does the expression contain a union whose operands overlap (known finding D20)?"""
     rows = rg.env_len(penv) if penv else 1
@@ -392,6 +409,9 @@ def run_case(spec, ctx):
     if kind == "comp" and _overlap_union(E, penv, gen0):
         feat += "+union-overlap"
         classes.append("union-overlap")
+    if kind == "comp" and "+union-overlap" not in feat and _union_of_estimates(I):
+        feat += "+union-of-boolean"
+        classes.append("union-of-boolean")
     if kind == "bcomp":
         try:
             if geo.touching(E, penv, 1e-4 * geo.scale_of(E, penv)):
